@@ -54,6 +54,26 @@ def c10a(ctx):
     for s, idx in ((cons[0], 1), (push[0], 1)):
         if not any(x.kind == "call" and x.site == pops[0] for x in df.origins_of_operand(b, s.node["args"][idx])):
             ctx.fail(o, s, "process_pending_commits applies something other than the popped task")
+    # the function gives up only when nothing is ready: heap empty, or its top is not the expected epoch
+    o2 = ctx.ob("C10.a", "process_pending_commits/drains-until-nothing-is-ready", "K2",
+                "process_pending_commits returns only over `heap is empty` or `top.epoch != expected_epoch` (every ready batch is applied before it gives up)")
+    exits = []
+    for sb, tb, rel, da, db_ in df.equality_edges(b, prog):
+        if rel == "ne" and (("epoch" in da.fields and "expected_epoch" in db_.fields) or ("epoch" in db_.fields and "expected_epoch" in da.fields)):
+            exits.append((sb, tb))
+    pk = b.calls_to(r"BinaryHeap::<T(, A)?>::peek$")
+    for sb, tb, v, c in df.variant_edges(b, "Option"):
+        if v == 0 and pk and any(x.kind == "call" and x.site == pk[0] for x in df.origins_of_place(b, c.place)):
+            exits.append((sb, tb))
+    o2.sites = len(exits)
+    if len(exits) < 2:
+        ctx.fail(o2, Site(b, 0, 0), "anchors missing: the `heap is empty` / `top is not the expected epoch` exits of process_pending_commits (found %d)" % len(exits))
+    else:
+        r = b.reachable([0], removed_edges=exits)
+        for t in b.returns():
+            if t in r:
+                ctx.fail(o2, Site(b, t, len(b.blocks[t]["stmts"])), "process_pending_commits can return while the heap's top is the expected epoch: ready batches stay parked "
+                         "behind it, later batches pile up, and what is still parked when the write manager is dropped is never written")
     o = ctx.ob("C10.a", "WriteTask-order/reversed-epoch", "K5", "pending tasks are ordered so that the smallest epoch is on top of the (max-)heap")
     c = ctx.touch(prog.body("<WriteTask as Ord>::cmp"))
     cm = c.calls_to(r"core::cmp::Ord::cmp$")
